@@ -351,6 +351,56 @@ fn rng_fault_sweep(rep: &Report, fx: &Fixture) {
     rep.extra("rng_fault_sweep", json!(table));
 }
 
+/// stdin is a NON-BLOCKING pipe whose writer pauses: a read finds the pipe empty and gets EAGAIN. The tool may give up
+/// with an error; if it reports success, its output is ONE conforming file of the whole input (a retry that restarts the
+/// encryption under the same salt / file key would seal chunk 0 twice under one (key, nonce)).
+fn nonblocking_stdin(rep: &Report, fx: &Fixture) {
+    let p = plaintext(rep.seed ^ 0x74, 200_000);
+    let mut jobs = vec![];
+    for mode in ["key", "pass"] {
+        for splits in [vec![131_072usize], vec![65_536, 140_000], vec![1], vec![70_000, 70_001, 150_000]] {
+            jobs.push((mode, splits));
+        }
+    }
+    jobs.par_iter().for_each(|(mode, splits)| {
+        rep.eval(1);
+        rep.nontrivial(format!("nonblock-stdin-{}-{:?}", mode, splits).as_bytes());
+        let attempt = || -> Result<(), String> {
+            let sc = Scratch::new();
+            sc.write("kr.txt", fx.keyring.as_bytes());
+            let mut c = if *mode == "key" { Cmd::new(&["encrypt", "-t", "bob", "-f", "alice", "-k", "kr.txt", "--env-pass"]).env("KESTREL_PASSWORD", "alicepw") } else { Cmd::new(&["password", "encrypt", "--env-pass"]).env("KESTREL_PASSWORD", "same password") };
+            c = c.stdin(&p);
+            c.stdin_splits = splits.clone();
+            c.stdin_nonblock = true;
+            let out = proc::run(&c, &sc.0);
+            if out.timed_out || out.signal.is_some() || out.stderr.contains("panicked at") {
+                return Err(format!("ill-behaved: {}", out.summary()));
+            }
+            if !out.ok() {
+                return Ok(());
+            }
+            let good = if *mode == "key" {
+                matches!(r::read_key_file(&fx.bob.sk, &out.stdout), Ok(k) if k.parsed.plaintext == p)
+            } else {
+                out.stdout.len() >= 36 && matches!(r::read_pass_file_with_key(&r::pass_key(b"same password", out.stdout[4..36].try_into().unwrap()), &out.stdout), Ok(k) if k.plaintext == p)
+            };
+            if !good {
+                // is chunk 0 sealed twice? (two records with counter field 0 in the output)
+                let hdr = if *mode == "key" { 132 } else { 36 };
+                let zero_counter_records = out.stdout.get(hdr..).map(|b| b.windows(16).filter(|w| w[..8] == [0u8; 8] && (w[8..12] == [0, 0, 0, 0] || w[8..12] == [0, 0, 0, 1]) && u32::from_be_bytes(w[12..16].try_into().unwrap()) as usize <= 65536 && u32::from_be_bytes(w[12..16].try_into().unwrap()) > 0).count()).unwrap_or(0);
+                return Err(format!("exit 0 on a non-blocking stdin whose writer paused (pieces {:?}), but the {} bytes written are not the conforming file of the input ({} candidate chunk-0 headers in the output: the stream was restarted under the same key)", splits, out.stdout.len(), zero_counter_records));
+            }
+            Ok(())
+        };
+        if attempt().is_err() {
+            if let Err(e) = attempt() {
+                rep.violation(&format!("nonblocking-stdin/{}", mode), json!({"kind":"append","mode":mode,"splits":splits}), format!("kestrel {} encrypt: {}", mode, e));
+            }
+        }
+    });
+    rep.extra("nonblocking_stdin_runs", json!(jobs.len()));
+}
+
 fn seam_check(rep: &Report, fx: &Fixture) {
     let seed = rep.seed;
     for op in [Op::LibKeyEncrypt, Op::LibGenerate] {
@@ -436,6 +486,51 @@ fn nonce_case(rep: &Report, key: &[u8; 32], aad: &[u8], cs: u32, p: &[u8], sizes
                 return;
             }
         }
+    }
+}
+
+/// Many-chunk variant of nonce_case: record i opens under nonce i and under none of the nonces that share some of its
+/// bytes (i +- 256, i +- 65536, i with bytes 0/1 swapped, i mod 256, ...), and all (nonce) values used are pairwise distinct.
+fn nonce_many(rep: &Report, key: &[u8; 32], cs: u32, p: &[u8]) {
+    rep.eval(1);
+    let case = json!({"kind":"nonce","key":hx(key),"aad":"","cs":cs,"plain":"","sizes":[],"len":p.len()});
+    let sub = Subject::TinyEnc { key: hx(key), aad: String::new(), cs };
+    let mut out = Vec::new();
+    let res = run_rw(&sub, &mut SchedReader::new(p, &[]), &mut out);
+    if !res.is_ok() {
+        rep.violation("nonce/encrypt-failed", case, res.brief());
+        return;
+    }
+    let (recs, rest) = r::split_records(&out);
+    if !rest.is_empty() || recs.len() < p.len() / cs as usize {
+        rep.violation("nonce/unparseable", case, "output is not the expected sequence of chunk records".into());
+        return;
+    }
+    let bad = std::sync::Mutex::new(None::<String>);
+    recs.par_iter().enumerate().for_each(|(i, rec)| {
+        let i = i as u64;
+        let mut a = vec![];
+        a.extend_from_slice(&rec.flag_field.to_be_bytes());
+        a.extend_from_slice(&rec.len_field.to_be_bytes());
+        let mut ct = rec.body.clone();
+        ct.extend_from_slice(&rec.tag);
+        if r::aead_open(key, &r::noise_nonce(i), &a, &ct).is_none() {
+            *bad.lock().unwrap() = Some(format!("record {} does not open under nonce {}", i, i));
+            return;
+        }
+        let mut others: Vec<u64> = vec![i & 0xff, i & 0xffff, i.wrapping_add(256), i.wrapping_sub(256), i.wrapping_add(65536), i ^ 0x100, i ^ 0x200, i ^ 0x8000, (i & !0xffff) | ((i & 0xff) << 8) | ((i >> 8) & 0xff), i.swap_bytes(), i + 1, i.wrapping_sub(1)];
+        others.retain(|&o| o != i);
+        others.sort();
+        others.dedup();
+        for o in others {
+            if r::aead_open(key, &r::noise_nonce(o), &a, &ct).is_some() {
+                *bad.lock().unwrap() = Some(format!("record {} of a {}-chunk file also opens under nonce {}: two chunks of one file share a (key, nonce) pair", i, recs.len(), o));
+                return;
+            }
+        }
+    });
+    if let Some(m) = bad.into_inner().unwrap() {
+        rep.violation("nonce/reuse-or-skip", case, m);
     }
 }
 
@@ -592,6 +687,7 @@ pub fn run(rep: &'static Report) {
 
     seam_check(rep, &ctx.fx);
     rng_fault_sweep(rep, &ctx.fx);
+    nonblocking_stdin(rep, &ctx.fx);
 
     // per file
     let key = derive32(seed, "c07-nonce-key");
@@ -601,6 +697,11 @@ pub fn run(rep: &'static Report) {
         for l in 0..=(3 * cs as usize + 1) {
             jobs.push((cs, l));
         }
+    }
+    // files of many chunks (hundreds to thousands, at chunk size 1 and 2): every byte of the counter must reach the nonce
+    for (cs, l) in [(1u32, 300usize), (1, rep.tier.pick(700, 70_000)), (2, 1030)] {
+        nonce_many(rep, &key, cs, &plaintext(seed ^ 0x73, l));
+        rep.nontrivial(format!("nonce-many-{}-{}", cs, l).as_bytes());
     }
     jobs.par_iter().for_each(|&(cs, l)| {
         let p = plaintext(seed ^ 0x71, l);
@@ -703,6 +804,10 @@ pub fn replay(rep: &'static Report, case: &Value) {
             let (env, res) = c.run();
             println!("  observed: {} under [{}]; re-running the fault part", res.brief(), describe(&env));
             run(rep);
+        }
+        "nonce" if case["len"].is_u64() => {
+            let key: [u8; 32] = unhx(case["key"].as_str().unwrap()).try_into().unwrap();
+            nonce_many(rep, &key, case["cs"].as_u64().unwrap() as u32, &plaintext(rep.seed ^ 0x73, case["len"].as_u64().unwrap() as usize));
         }
         "nonce" => {
             let g = |k: &str| unhx(case[k].as_str().unwrap());
